@@ -41,8 +41,11 @@ type Chunked struct {
 	Data        []byte
 	Sizes       []int
 	EOFWithData bool
-	pos, i      int
-	Reads       int
+	// Stall > 0: once StallAt bytes were delivered, the next Stall reads return (0, nil) - a
+	// source that makes no progress for a while - and then the data carries on.
+	StallAt, Stall int
+	pos, i         int
+	Reads          int
 }
 
 func (c *Chunked) Read(p []byte) (int, error) {
@@ -52,12 +55,20 @@ func (c *Chunked) Read(p []byte) (int, error) {
 	if len(p) == 0 {
 		return 0, nil
 	}
+	if c.Stall > 0 && c.pos >= c.StallAt {
+		c.Stall--
+		c.Reads++
+		return 0, nil
+	}
 	n := 1
 	if len(c.Sizes) > 0 {
 		n = c.Sizes[c.i%len(c.Sizes)]
 		c.i++
 	}
 	n = max(1, min(n, len(p), len(c.Data)-c.pos))
+	if c.Stall > 0 && c.pos < c.StallAt {
+		n = min(n, c.StallAt-c.pos)
+	}
 	copy(p, c.Data[c.pos:c.pos+n])
 	c.pos += n
 	c.Reads++
